@@ -86,17 +86,47 @@ def fnv64 (bs : Bytes) : UInt64 :=
 def showOut (bs : Bytes) : String :=
   if bs.length ≤ 128 then toHex bs else s!"n={bs.length},h={toHex (u64be (fnv64 bs))}"
 
+def parseReadOp (t : String) : Option ReadOp :=
+  match t.toList with
+  | ['e'] => some .empty
+  | 'u' :: w => (natOf w).bind fun w => if w ∈ [1, 2, 3, 4, 6, 8] then some (.uint w) else none
+  | 'L' :: k => (natOf k).bind fun k => if k ∈ [1, 2, 3] then some (.lp k) else none
+  | 'b' :: n => (intOf n).map .bytes
+  | 's' :: n => (intOf n).map .skip
+  | 'c' :: n => (natOf n).map .copy
+  | _ => none
+
+/-- `reads in=<hex> ops=u1,u2,b3,c2,s-1,L2,e` -/
+def handleReads (o : Op) : String :=
+  match o.hex? "in", o.get? "ops" with
+  | some s, some ops =>
+    match (if ops == "-" then some [] else (ops.splitOn ",").mapM parseReadOp) with
+    | some rops =>
+      let (vals, failed, rest) := runReads rops s 0 []
+      let vs := if vals.isEmpty then "-" else "|".intercalate (vals.map toHex)
+      match failed with
+      | none => s!"ok {vs} rest={toHex rest} mutated=0"
+      | some i => s!"fail i={i} {vs} mutated=0"
+    | none => "bad-op"
+  | _, _ => "bad-op"
+
 def handle (line : String) : String :=
   let o := parseOp line
+  if o.cmd == "reads" then handleReads o else
   if o.cmd != "prog" then "bad-op" else
   match o.get? "kind", o.nat? "cap", o.hex? "pre", (o.get? "p").bind parseProg with
   | some kind, some capN, some pre, some p =>
-    if kind != "grow" && kind != "fixed" then "bad-op" else
+    if kind != "grow" && kind != "fixed" && kind != "zero" then "bad-op" else
+    if kind == "zero" && !pre.isEmpty then "bad-op" else
+    let fin := (o.get? "fin").getD "bytes"
+    if fin != "bytes" && fin != "orpanic" && fin != "again" then "bad-op" else
+    -- `again`: Bytes() twice (must agree), then one more AddUint8(1) and Bytes(): Bytes() does not change the builder
+    let p := if fin == "again" then p ++ [Prog.uint 1 1] else p
     let fixed := kind == "fixed"
     if fixed && pre.length > capN then "bad-op" else
     let cap := if fixed then some capN else none
     match build cap pre p with
-    | .err => "err"
+    | .err => if fin == "orpanic" then "panic" else "err"   -- BytesOrPanic panics with the error
     | .panic _ => "panic"
     | .ok bs =>
       let rt := match mirror pre p with
